@@ -31,6 +31,14 @@ def gen_ws(rng):
             s['data'] = [x if x != 0 else 1.0 for x in s['data']]
             if rng.random() < 0.15:
                 s['data'] = [float(int(x)) for x in s['data']]
+    if rng.random() < 0.2:
+        # a negative yield in one bin of a sample that carries a bin-wise uncertainty (negative-weight / interference-style sample), where
+        # another sample keeps the bin's total well positive: the relative form written to the file is negative there
+        cands = [(c, s) for c in chans if len(c['samples']) >= 2 for s in c['samples'] if any(m['type'] in ('staterror', 'shapesys') for m in s['modifiers'])]
+        if cands:
+            c, s = rng.choice(cands); b = rng.randrange(len(s['data']))
+            if sum(o['data'][b] for o in c['samples'] if o is not s) >= 20:
+                s['data'][b] = -round(rng.uniform(0.5, 3.0), 2)
     many_constants = rng.random() < 0.25
     if many_constants:
         # long parameter names, all held constant: the exported list of constant parameters becomes long (several text lines' worth)
